@@ -12,6 +12,7 @@ import (
 	libshare "github.com/celestiaorg/go-square/v4/share"
 	"github.com/celestiaorg/rsmt2d"
 
+	"github.com/celestiaorg/celestia-node/libs/verifhook"
 	"github.com/celestiaorg/celestia-node/share"
 	"github.com/celestiaorg/celestia-node/share/eds"
 	"github.com/celestiaorg/celestia-node/share/shwap"
@@ -55,6 +56,7 @@ func CreateODS(
 		return fmt.Errorf("creating ODS file: %w", err)
 	}
 
+	verifhook.PointKV("ods.created", path)
 	shareSize := len(eds.GetCell(0, 0))
 	hdr := &headerV0{
 		fileVersion: fileV0,
@@ -64,10 +66,12 @@ func CreateODS(
 	}
 
 	err = writeODSFile(f, roots, eds, hdr)
+	verifhook.PointKV("ods.written", path)
 	if errClose := f.Close(); errClose != nil {
 		err = errors.Join(err, fmt.Errorf("closing created ODS file: %w", errClose))
 	}
 
+	verifhook.PointKV("ods.closed", path)
 	return err
 }
 
@@ -80,14 +84,17 @@ func writeODSFile(f *os.File, axisRoots *share.AxisRoots, eds *rsmt2d.ExtendedDa
 		return fmt.Errorf("writing header: %w", err)
 	}
 
+	verifhook.Point("ods.header-written")
 	if err := writeAxisRoots(buf, axisRoots); err != nil {
 		return fmt.Errorf("writing axis roots: %w", err)
 	}
 
+	verifhook.Point("ods.roots-buffered")
 	if err := writeODS(buf, eds); err != nil {
 		return fmt.Errorf("writing ODS: %w", err)
 	}
 
+	verifhook.Point("ods.before-flush")
 	if err := buf.Flush(); err != nil {
 		return fmt.Errorf("flushing ODS file: %w", err)
 	}
@@ -114,6 +121,7 @@ func writeODS(w io.Writer, eds *rsmt2d.ExtendedDataSquare) error {
 			if err != nil {
 				return fmt.Errorf("writing share: %w", err)
 			}
+			verifhook.Point("ods.share-buffered")
 		}
 	}
 	return nil
@@ -401,6 +409,7 @@ func (o *ODS) readODS() (square, error) {
 		}
 
 		// not cached, read and cache
+		verifhook.Point("ods.readods.before-lock")
 		o.lock.Lock()
 		defer o.lock.Unlock()
 	}
